@@ -17,6 +17,13 @@ CHECKS = [
              "inverse-where-advertised and of the class's documented action formula; domains and input immutability checked "
              "on every path. Bounded by the enumerated configurations and domain sizes (<= 16 pixels).",
      "design_ref": "DESIGN.md 4/C02"},
+    {"property_id": "C06", "engine": "A", "category": "other", "technique": TECH_A, "note": NOTE_A,
+     "text": "Bounded symbolic verification of Field/MultiField arithmetic, dot products (conjugate-linear in the first "
+             "argument), comparisons and every contraction (sum, prod, integrate, mean, var, std, weight and the s_* "
+             "variants) over every subset of sub-domains on uniform, 2-D, non-uniform (PowerSpace) and unstructured "
+             "domain tuples, real and complex: z3 refutes any difference from explicit volume-weighted index sums for ALL "
+             "field values; domain-mismatch rejection on every path. Bounded by domain sizes (<= 8 pixels).",
+     "design_ref": "DESIGN.md 4/C06"},
 ]
 
 ALL = [f"C{i:02d}" for i in range(1, 37)]
